@@ -730,9 +730,14 @@ class Model:
                     self.valid = False
             return True
         if f == "skip":
+            okey = "once|" + repr(n)
+            if "once" in q and self.hidden.get(okey):
+                return True  # skip.once already fired in this run
             fire = True if not a else self.vote(a[0])
             if fire:
                 self.skip_fired = True
+                if "once" in q:
+                    self.hidden[okey] = True
             return True
         if f == "advance":
             v = self.val(a[0])
